@@ -121,7 +121,7 @@ func init() {
 			{Name: "FREE-COUNT", What: "each cache's free(n), inside its critical section, hands drop the missing slots n − (cap − len(table)) and answers cap − len(table) ≥ n with the length read after the eviction (\"Free … leave[s] the stated … free slots\")", Floor: 6, Run: ruleFreeCount},
 			{Name: "RESIZE-COUNT", What: "each cache's Resize hands drop the excess len(table) − n (added after eighth-round seed C14-j: cap − n drops blocks that are not in excess)", Floor: 3, Run: ruleResizeCount},
 		},
-		Explanation: "LOCK-1/3 decide, on every path of every function of bgzf/cache, that no operation re-acquires a held mutex (Resize, Drop, Free's callees return) and that every acquisition is released; LOCK-2 that each access to table/root/cap/stats is inside the mutex (write lock for mutation), which with LOCK-5 (one critical section per operation) is the structural sufficient condition for each operation taking effect atomically under any schedule; OWN-2 that every implementation's Get removes what it returns (a Get that leaves the mapping lets Get/Peek answer a base whose buffer the reader has recycled); CACHE-PUT-CAP/REFUSE that Put cannot exceed the capacity and refuses unused blocks when full.",
+		Explanation: "LOCK-1/3 decide, on every path of every function of bgzf/cache, that no operation re-acquires a held mutex (Resize, Drop, Free's callees return) and that every acquisition is released; LOCK-2 that each access to table/root/cap/stats is inside the mutex (write lock for mutation), which with LOCK-5 (one critical section per operation) is the structural sufficient condition for each operation taking effect atomically under any schedule; OWN-2 that every implementation's Get removes what it returns (a Get that leaves the mapping lets Get/Peek answer a base whose buffer the reader has recycled); CACHE-PUT-CAP/REFUSE that Put cannot exceed the capacity and refuses unused blocks when full; ATOMIC-COMPOSE that Free – a function of the package, not a method – performs one operation on a provided cache (it dispatches to the cache's own critical section; three calls only for a foreign implementation) and FREE-COUNT that this critical section evicts the missing slots and answers from the table as it is afterwards; DROP-COUNT/RESIZE-COUNT the counts Drop and Resize act on.",
 		NotDecided:  "eviction policy (which block is chosen), linearizability as a property of histories (LOCK-5/ATOMIC-COMPOSE give one critical section per operation, the structural sufficient condition), Free on a foreign Cache implementation (three calls, inherent: the interface offers no lock).",
 		Assumptions: []string{"guarded-field table in c14.go (read from the code, frozen)", "a mutex is identified by (base pointer, field); locks reached through other aliases are not tracked"},
 	})
